@@ -12,6 +12,11 @@ def gen(n, seed):
         peera = [['send', rnd.randint(1, 3)] for _ in range(rnd.randint(0, 3))]
         if rnd.random() < 0.5:
             peera.insert(rnd.randint(0, len(peera)), ['close'])
+        if rnd.random() < 0.25:
+            # A is torn down by its peer only (its close callbacks release the slot); the user never closes it but goes on calling it
+            usera = [['Yield']] * rnd.randint(1, 4) + [rnd.choice([['Release'], ['Release'], ['IsActive'], ['Write', 3]]) for _ in range(rnd.randint(1, 3))]
+            if ['close'] not in peera:
+                peera.insert(rnd.randint(0, len(peera)), ['close'])
         out.append({'id': 'slot-%d-%d' % (seed, i), 'seed': seed * 7 + i, 'strategy': rnd.choice(['random', 'random', 'pct']), 'plan': [],
                     'usera': usera, 'peera': peera, 'peerb': [['send', rnd.randint(1, 3)] for _ in range(rnd.randint(1, 3))],
                     'openb': rnd.choice(['afterclose', 'any', 'any', 'afterbatch', 'afterbatch']), 'drain': rnd.random() < 0.4,
